@@ -66,14 +66,13 @@ Inductive fifo_step : list A -> bop -> out A -> list A -> Prop :=
     fifo_step q (BPeek n) (OutPeek (Ret (EShortBuf, []))) q
 | FS_PeekPrefix q n bss : 0 < n <= zlen q -> n <> MaxInt32 -> List.concat bss = ztake n q ->
     fifo_step q (BPeek n) (OutPeek (Ret (ENil, bss))) q
-  (* PeekWithBytes: the given slices come first; the ErrShortBuffer guard
-     compares n with the queue alone, as coded *)
+  (* PeekWithBytes: the given slices come first and count towards n *)
 | FS_PeekBAll q n bs bss : n <= 0 \/ n = MaxInt32 ->
     List.concat bss = ztake MaxInt32 (lits (List.concat bs) ++ q) ->
     fifo_step q (BPeekB n bs) (OutPeek (Ret (ENil, bss))) q
-| FS_PeekBShort q n bs : 0 < n -> n <> MaxInt32 -> zlen q < n ->
+| FS_PeekBShort q n bs : 0 < n -> n <> MaxInt32 -> zlen (List.concat bs) + zlen q < n ->
     fifo_step q (BPeekB n bs) (OutPeek (Ret (EShortBuf, []))) q
-| FS_PeekBPrefix q n bs bss : 0 < n <= zlen q -> n <> MaxInt32 ->
+| FS_PeekBPrefix q n bs bss : 0 < n <= zlen (List.concat bs) + zlen q -> n <> MaxInt32 ->
     List.concat bss = ztake n (lits (List.concat bs) ++ q) ->
     fifo_step q (BPeekB n bs) (OutPeek (Ret (ENil, bss))) q
 | FS_PopEmpty : fifo_step [] BPop (OutPop None) []
